@@ -11,7 +11,10 @@ slow authentication (credentials sent by a later operation), connections reset r
 in bursts), well-formed requests that name builtin / foreign types for the sender's own objects and answer the server's
 class inspection with nothing, junk or dangerous method names (while well-behaved clients pass by-reference arguments of
 those builtin types - range, dict views, map, zip, enumerate, reversed, generators, memoryview, iterators, functions - to
-a service method that iterates, measures, indexes or calls them through callbacks, results checked), and forged references: a client sends, on its own connection, the id of an object lent to another client
+a service method that iterates, measures, indexes or calls them through callbacks, results checked; hostile clients also
+answer the server's class inspection or its call on their object with exception replies naming KeyboardInterrupt, SystemExit,
+GeneratorExit, BaseException, StopIteration), two clients logging in while the service constructor of a third is still running
+(each then asks which credentials and peer address its connection carries), and forged references: a client sends, on its own connection, the id of an object lent to another client
 (while that one holds it, after it released it, after it disconnected).  The byte strings go to the model as bytes: the model cuts them into frames itself (`classify`, with the
 brine decoder of C04) — only `zlib.decompress` results are supplied as environment facts.  After each operation the
 harness waits (ceiling 10 s, 3 ms polls, no fixed sleeps) until the observable state of the real server equals the
@@ -43,8 +46,14 @@ TRUSTED = [
     "EXCEPTION frames and 3-element frozensets are resolved by the environment parameter `Env.raises` (the driver reports "
     "them NOT-MODELLED and the harness skips the case); zlib is an environment parameter",
     "a request whose handler calls back into the client that sent it (by-reference arguments: `u` / `x` operations) is one "
-    "frame to the model, answered when the callbacks are; a client that stops answering such callbacks (the server would "
-    "wait sync_request_timeout) is not generated",
+    "frame to the model, answered when the callbacks are - whatever the client answers them with, exception replies naming "
+    "KeyboardInterrupt / SystemExit / GeneratorExit / BaseException / StopIteration included (`x` with the answers from "
+    "servers.FIRST_RAISE on); a client that stops answering such callbacks (the server would wait sync_request_timeout) is "
+    "not generated",
+    "each connection carries the credentials and peer address of its own client: checked by the correspondence (service "
+    "hooks are attributed to clients by the peer address the server-side connection was configured with) and by the oracle "
+    "(`w`: the client asks); to the model a service constructor that takes its time (option \"gate\") is the bookkeeping state "
+    "of an authenticator that waits (`connect k silent` ... `creds k good`); the model has no shared configuration to mix up",
     "rpyc keeps process-wide state (netref class caches): the direct oracle is evaluated in a fresh interpreter per script, "
     "so that a reported script reproduces on its own",
     "forking server: object ids are per process, so the model's global object counter idealises them (a foreign id that "
@@ -689,15 +698,43 @@ def oracle_twice(case, known):
 def shrink(case, sig, known, budget_s=40):
     t0 = time.time()
     ops = list(case["ops"])
-    i = 0
-    while i < len(ops) and time.time() - t0 < budget_s:
-        cand = ops[:i] + ops[i + 1:]
-        res = oracle_fresh(dict(case, ops=cand), known, ceiling=2.5) if cand else None
-        if res is not None and res[1] == sig:
-            ops = cand
-        else:
-            i += 1
+    chunk = max(1, len(ops) // 2)
+    while time.time() - t0 < budget_s:
+        i = 0
+        while i < len(ops) and time.time() - t0 < budget_s:
+            cand = ops[:i] + ops[i + chunk:]
+            res = oracle_fresh(dict(case, ops=cand), known, ceiling=2.5) if cand else None
+            if res is not None and res[1] == sig:
+                ops = cand
+            else:
+                i += chunk
+        if chunk == 1:
+            break
+        chunk = max(1, chunk // 2)
     return dict(case, ops=ops)
+
+
+def amplify(case, known):
+    """a script after which a pool has lost a worker, made into one after which it serves nobody: the hostile sessions
+    repeated by nbThreads fresh clients, then a well-behaved newcomer"""
+    ops = list(case["ops"])
+    hostile = sorted(set(int(t[1:].split(":")[0]) for t in ops if t[0] in "xri"))
+    if not hostile:
+        return None
+    out, base = list(ops), 100
+    for n in range(case["nb"]):
+        for k in hostile:
+            for t in ops:
+                if t[0] in "cxri" and int(t[1:].split(":")[0]) == k and t.count(":") < 3:
+                    rest = t[1:].split(":", 1)
+                    out.append(t[0] + str(base + k) + (":" + rest[1] if len(rest) > 1 else ""))
+        base += 100
+    out += ["c7:g", "p7"]
+    big = dict(case, ops=out)
+    res = oracle_fresh(big, known)
+    if res is not None and res[1] not in known and res[1] != "C16:pool:worker-died":
+        return big, res[0], res[1]
+    return None
 
 
 def oracle_search(ctx, corr, broken):
@@ -743,9 +780,13 @@ def oracle_search(ctx, corr, broken):
             continue
         small = shrink(case, sig, known, 40)
         res = oracle_fresh(small, known)
-        if res is not None and res[1] == sig:
-            return small, res[0], sig
-        return case, msg, sig
+        if res is None or res[1] != sig:
+            small, res = case, (msg, sig)
+        if sig == "C16:pool:worker-died":
+            worse = amplify(small, known)
+            if worse is not None:
+                return worse
+        return small, res[0], sig
     return None
 
 
